@@ -364,14 +364,18 @@ def corpus():
     """minimised past findings (replayed first on every run).
     [0] stale `dav` in init_mix (fixed by /repo 02a99847): a zero dispersivity after two non-zero ones made
         m1[2] = 0.2 but m[3] = 1/15: 13.3 % of every solute vanished in one shift.
-    [1] the same with backward flow and the zero in the middle."""
+    [1] the same with backward flow and the zero in the middle.
+    [2] speciation residual accumulating over 651 speciations per cell (known finding)."""
     base = {"kind": "transport", "n": 3, "shifts": 2, "flow": "forward", "bc": [3, 3], "lengths": ["1"],
             "disps": ["0.1", "0.1", "0"], "diffc": "0", "timest": "0", "correct_disp": False, "stag": None, "mcd": None,
             "implicit": None, "solids": None,
             "sols": {"0": _nacl("0.001"), "1": _nacl("1"), "2": _nacl("0.001"), "3": _nacl("0.001")}}
     second = dict(base, n=4, flow="back", disps=["0.2", "0", "0.1", "0.3"], lengths=["0.5"], diffc="1e-9", timest="1000",
                   sols={"1": _nacl("0.001"), "2": _nacl("0.5"), "3": _nacl("0.001"), "4": _nacl("2"), "5": _nacl("0.01")})
-    return [base, second]
+    # [2] known finding `speciation-residual-accumulates`: 650 mixruns in one shift of an explicit multi_d column with
+    #     flux boundaries: Ca inventory +1.4e-9 relative (no negative-concentration balancing involved)
+    third = {"kind": "transport", "n": 4, "shifts": 1, "sols": {"1": {"water": "1", "pH": "7", "el": {"Mg": "0.34339", "Br": "0.618102", "Cl": "0.068678"}}, "2": {"water": "1", "pH": "7", "el": {"Mg": "5.3", "Br": "8.48", "Cl": "2.12"}}, "3": {"water": "1", "pH": "7", "el": {"Mg": "0.34339", "Br": "0.618102", "Cl": "0.068678"}}, "4": {"water": "1", "pH": "7", "el": {"Mg": "0.34339", "Br": "0.618102", "Cl": "0.068678"}}, "0": {"water": "1", "pH": "7", "el": {"Li": "2.2448e0", "Br": "0.22448", "Cl": "2.02032"}}, "5": {"water": "1", "pH": "8", "el": {"Na": "3.41e-1", "Mg": "0.992", "Ca": "0.17463", "Br": "2.139408", "Cl": "0.534852"}}}, "flow": "back", "bc": [3, 3], "lengths": ["1.27e-2", "1.27e-2", "1.27e-2", "1.27e-2"], "disps": ["0.057", "0", "0", "0.0079"], "diffc": "0", "timest": "7.5e6", "correct_disp": True, "stag": None, "mcd": {"dw": "1e-9", "por": "1"}, "implicit": None, "solids": None, "variant": "mcd"}
+    return [base, second, third]
 
 
 HEADS = ["cell", "step", "state", "water", "H", "O", "cb"] + ["m_" + e for e in ELEMENTS] + ["c_" + e for e in ELEMENTS]
